@@ -309,6 +309,8 @@ def check_chain(chain, pre, data, kw=None, repeats=2):
         bad("Compose/call/unexpected-%s/%s" % (rc, where), "Compose, " + desc)
     if not ok2:
         bad("Sequence/call/unexpected-%s/%s" % (rs, where), "Sequence, " + desc)
+    if "NON-TERMINATION" in (rc if not ok1 else "", rs if not ok2 else ""):
+        return out
     if not same(pre, pre0):
         bad("harness/pre-changed", desc)
     results = []
@@ -593,9 +595,15 @@ def pre_contexts():
     ]
 
 
+class HangBudget(Exception):
+    pass
+
+
 def report(R, res, kind, args):
     for fid, text in res:
         R.fail(fid, text, {"args": args}, {"fn": kind, "args": args + [fid]})
+    if CONFIRMED_HANGS[0] >= 3:
+        raise HangBudget()
 
 
 def compositions(n):
@@ -654,6 +662,14 @@ def rand_pre(rng, types):
 
 
 def body(R):
+    try:
+        scopes(R)
+    except HangBudget:
+        R.scope("(run cut short)", "stopped after 3 confirmed non-terminations (each repeated with a 15 s limit); the scopes "
+                "above are incomplete", False)
+
+
+def scopes(R):
     rng = R.rng
     pres = pre_contexts()
     datas = [7, [0, ""]]
